@@ -349,7 +349,19 @@ def rule_quotation(rep: Report, idx: SourceIndex) -> None:
 			r.skip('range', cr.where, 'the span is not unpacked into four names in __cause_range')
 		else:
 			bl_, bc_, el_, ec_ = [unparse(x) for x in tup.targets[0].elts]
-			_range_rule(r, RENDER, cr, 'quotation', (bl_, bc_, el_, ec_))
+			# decided by evaluation where the function is in the subset of vlib/dsneval.py: the range of a span that ends on its first line is
+			# [begin column, end column), of a span that continues on a later line [begin column, length of the quoted line) — whatever the
+			# columns of the later line are (smaller, equal, larger than the begin column)
+			from vlib import dsneval
+			reps_ = {(3, 4, 3, 9): [4, 9], (3, 4, 3, 5): [4, 5], (3, 4, 5, 9): [4, 20], (3, 8, 5, 2): [8, 20], (3, 4, 5, 4): [4, 20], (0, 0, 7, 1): [0, 20]}
+			got_ = {sp: dsneval.call_function(q, '__cause_range', [list(sp)], {}, 0, {'self.cause_line': 'x' * 20}) for sp in reps_}
+			if all(v is not dsneval.UNKNOWN for v in got_.values()):
+				for sp, want in reps_.items():
+					g_ = list(got_[sp]) if isinstance(got_[sp], (list, tuple)) else got_[sp]
+					kind = 'ends on its first line' if sp[0] == sp[2] else 'continues on a later line'
+					r.check(g_ == want, f'quotation:range:{sp}', cr.where, f'for the span {sp} (begin line, begin column, end line, end column), which {kind}, with a quoted line of 20 characters __cause_range gives {g_}; the node\'s text on the quoted line is columns [{want[0]}, {want[1]}): the end column belongs to ANOTHER line when the node continues, so deciding by the columns instead of by the lines marks a few carets where the rest of the line belongs to the node (a call or assignment spread over several lines)', f'{sp} -> {g_}')
+			else:
+				_range_rule(r, RENDER, cr, 'quotation', (bl_, bc_, el_, ec_))
 	lm = q.method('__build_line_mark')
 	if lm is not None:
 		_mark_rule(r, RENDER, lm, 'quotation')
